@@ -17,13 +17,14 @@ import (
 )
 
 type vfHalf struct {
-	mu       sync.Mutex
-	data     []byte
-	wclosed  bool // writer side closed: reader gets EOF after draining
-	rclosed  bool // reader side closed: writer gets ErrClosedPipe
-	wake     chan struct{}
-	total    int // bytes ever delivered to the reader
-	capLimit int // 0 = unbounded
+	mu        sync.Mutex
+	data      []byte
+	wclosed   bool // writer side closed: reader gets EOF after draining
+	rclosed   bool // reader side closed: writer gets ErrClosedPipe
+	wake      chan struct{}
+	total     int // bytes ever delivered to the reader
+	delivered int // bytes ever appended by the writer
+	capLimit  int // 0 = unbounded
 }
 
 func newVfHalf() *vfHalf { return &vfHalf{wake: make(chan struct{})} }
@@ -65,6 +66,14 @@ type vfConn struct {
 	closeOnce sync.Once
 	closed    chan struct{}
 	onClose   func()
+
+	// quiescence detection: set on BOTH ends by vfPipeQuiescent. When both ends are blocked in Read with empty
+	// buffers nothing can ever happen again (short of a deadline); onQuiescent is then called once.
+	peer        *vfConn
+	waiting     bool // guarded by qmu of the pair
+	qmu         *sync.Mutex
+	onQuiescent func()
+	qfired      *bool
 }
 
 type vfAddr string
@@ -131,6 +140,12 @@ func (c *vfConn) Read(p []byte) (int, error) {
 		if len(p) == 0 {
 			return 0, nil
 		}
+		if c.qmu != nil {
+			c.qmu.Lock()
+			c.waiting = true
+			c.qmu.Unlock()
+			go c.checkQuiescent()
+		}
 		var timer <-chan time.Time
 		var tm *time.Timer
 		if !dl.IsZero() {
@@ -146,6 +161,49 @@ func (c *vfConn) Read(p []byte) (int, error) {
 		if tm != nil {
 			tm.Stop()
 		}
+		if c.qmu != nil {
+			c.qmu.Lock()
+			c.waiting = false
+			c.qmu.Unlock()
+		}
+	}
+}
+
+// vfPipeQuiescent arms quiescence detection on a pipe pair: fn runs (once, on its own goroutine) when both ends
+// are blocked reading and no byte is in flight.
+func vfPipeQuiescent(a, b *vfConn, fn func()) {
+	mu := &sync.Mutex{}
+	fired := false
+	a.peer, b.peer = b, a
+	a.qmu, b.qmu = mu, mu
+	a.qfired, b.qfired = &fired, &fired
+	a.onQuiescent, b.onQuiescent = fn, fn
+}
+
+func (c *vfConn) checkQuiescent() {
+	p := c.peer
+	if p == nil {
+		return
+	}
+	// fixed lock order: the two halves by address-independent role (c.rd then c.wr is the same pair of halves for
+	// both ends, so order them by name), then the flag mutex
+	h1, h2 := c.rd, c.wr
+	if c.name != "client" {
+		h1, h2 = c.wr, c.rd
+	}
+	h1.mu.Lock()
+	h2.mu.Lock()
+	c.qmu.Lock()
+	fire := c.waiting && p.waiting && len(h1.data) == 0 && len(h2.data) == 0 && !h1.wclosed && !h2.wclosed && !*c.qfired
+	if fire {
+		*c.qfired = true
+	}
+	fn := c.onQuiescent
+	c.qmu.Unlock()
+	h2.mu.Unlock()
+	h1.mu.Unlock()
+	if fire && fn != nil {
+		fn()
 	}
 }
 
@@ -157,8 +215,17 @@ func (c *vfConn) deliver(b []byte) error {
 		return io.ErrClosedPipe
 	}
 	h.data = append(h.data, b...)
+	h.delivered += len(b)
 	h.broadcastLocked()
 	return nil
+}
+
+// Delivered returns the number of bytes this end has put on the wire towards its peer (after the filter, including
+// injected bytes).
+func (c *vfConn) Delivered() int {
+	c.wr.mu.Lock()
+	defer c.wr.mu.Unlock()
+	return c.wr.delivered
 }
 
 func (c *vfConn) Write(p []byte) (int, error) {
